@@ -738,7 +738,17 @@ def concatenate(arrays, axis=0):
 
 def repeat(a, repeats):
     a = asarray(a)
-    n = int(repeats)          # a symbolic count is realised through forking on its value
+    n = repeats
+    if hasattr(n, "var"):     # a symbolic count is realised by forking over its possible values
+        if n < 0:
+            raise ValueError("repeats may not contain negative values.")
+        k = 0
+        while not (n == k):
+            k += 1
+            if k > 64:
+                raise ModelUnsupported("repeat count beyond modelled range")
+        n = k
+    n = int(n)
     if n < 0:
         raise ValueError("repeats may not contain negative values.")
     vals = a._d if a.ndim else [a._d[0]]
